@@ -507,17 +507,18 @@ pub fn run(sc: &Scenario) -> Outcome {
     }
 
     let segs = (sc.client.chunks.len() + sc.server.chunks.len()) as u64;
-    let pauses: u64 = [&sc.client, &sc.server]
-        .iter()
-        .map(|s| {
-            let wp: u64 = (0..s.chunks.len()).map(|i| if s.write_pauses.is_empty() { 0 } else { s.write_pauses[i % s.write_pauses.len()] as u64 }).sum();
-            let total: u64 = s.chunks.iter().map(|c| *c as u64).sum::<u64>() + 4;
-            let rp_max = s.reads.iter().map(|r| r.2 as u64).max().unwrap_or(0);
-            let min_buf = s.reads.iter().map(|r| r.0 as u64).filter(|b| *b > 0).min().unwrap_or(64);
-            // the *peer's* bytes are read with this side's plan; be generous
-            wp + s.reader_delay as u64 + (total * 4 / min_buf.max(1) + segs + 4) * (rp_max + 1)
-        })
-        .sum();
+    // time the slower reader may legitimately need: every progress read can be preceded by the
+    // other entries of its (cycled) read plan, each with its pause (+1 ms for zero-length reads)
+    let dir_time = |w: &Side, r: &Side| -> u64 {
+        let bytes: u64 = w.chunks.iter().map(|c| *c as u64).sum();
+        let wp: u64 = (0..w.chunks.len()).map(|i| if w.write_pauses.is_empty() { 0 } else { w.write_pauses[i % w.write_pauses.len()] as u64 }).sum();
+        let plan: Vec<(u16, bool, u8)> = if r.reads.is_empty() { vec![(64, false, 0)] } else { r.reads.clone() };
+        let min_buf = plan.iter().map(|x| x.0 as u64).filter(|b| *b > 0).min().unwrap_or(64);
+        let cycle_cost: u64 = plan.iter().map(|x| x.2 as u64 + 2).sum();
+        let progress_reads = bytes.div_ceil(min_buf.max(1)) + w.chunks.len() as u64 + 3;
+        wp + r.reader_delay as u64 + progress_reads * cycle_cost
+    };
+    let pauses: u64 = dir_time(&sc.client, &sc.server) + dir_time(&sc.server, &sc.client);
     let total_bytes: u64 = sc.client.chunks.iter().chain(sc.server.chunks.iter()).map(|c| *c as u64).sum();
     let last_fault = sc.faults.iter().map(|f| f.0 as u64).max().unwrap_or(0);
     let budget = 10 * (segs + 4) * (lat_max / tick + 2) + (pauses * 8 + total_bytes * 2) / tick + last_fault + 50;
